@@ -101,7 +101,8 @@ Fields(v) ==
 \* raw element text is not escaped by the writer and not un-escaped by the reader: safe only without < and &
 CarrierSafe == \A v \in Variants : \A f \in Fields(v) :
                   f.carrier = "raw" => MayContain(f.domain) \cap {"<", "&"} = {}
-\* fields in which XML-special characters can occur at all (what the case machine focuses on)
-Focusable(v) == {f.name : f \in {g \in Fields(v) : MayContain(g.domain) # {}}}
+\* fields the case machine focuses on: those in which XML-special characters can occur at all, and the handles (RFC 8183:
+\* 1 to 255 characters out of [-_A-Za-z0-9/]), whose length limits sit in the constructors and in the parsers
+Focusable(v) == {f.name : f \in {g \in Fields(v) : MayContain(g.domain) # {} \/ g.domain = "handle"}}
 
 =============================================================================
